@@ -28,8 +28,9 @@ def scaled_conditions(sc, area_f=1.0, mass_f=1.0):
     from pyvaporation.conditions import Conditions
 
     c = sc.conditions
-    return Conditions(membrane_area=c.membrane_area * area_f, initial_feed_temperature=c.initial_feed_temperature,
-                      initial_feed_amount=c.initial_feed_amount * mass_f, initial_feed_composition=c.initial_feed_composition,
+    # float(): the harness must not scale in a narrow numpy dtype of the caller's scalars
+    return Conditions(membrane_area=float(c.membrane_area) * area_f, initial_feed_temperature=c.initial_feed_temperature,
+                      initial_feed_amount=float(c.initial_feed_amount) * mass_f, initial_feed_composition=c.initial_feed_composition,
                       permeate_temperature=c.permeate_temperature, permeate_pressure=c.permeate_pressure,
                       temperature_program=c.temperature_program)
 
